@@ -118,6 +118,7 @@ def worker_env(extra=None):
     env.pop('NUTILS_DEBUG', None)
     repo = env.get('VERIF_REPO', '/repo')
     env['PYTHONPATH'] = os.pathsep.join([VERIF, os.path.join(repo, 'src')])
+
     if extra:
         env.update(extra)
     return env
@@ -223,6 +224,7 @@ def main(argv=None):
     finally:
         import shutil
         shutil.rmtree(workdir, ignore_errors=True)
+
     sys.exit(code)
 
 
@@ -237,6 +239,12 @@ def _main(prop, args, t0, workdir):
             raise HarnessError('setup failed: ' + out[-500:])
     mod = load(prop)
     env = worker_env(getattr(mod, 'ENV', None))
+    # The code under test is compiled afresh from its current working tree: byte code cached next to the sources could
+    # stem from an earlier state of the tree (time stamp and size can coincide after apply/revert cycles) and must not be
+    # able to decide a verdict.  Workers run with PYTHONDONTWRITEBYTECODE, so nothing is written back.
+    import shutil, glob
+    for d in glob.glob(os.path.join(env.get('VERIF_REPO', '/repo'), 'src', 'nutils', '**', '__pycache__'), recursive=True):
+        shutil.rmtree(d, ignore_errors=True)
 
     if args.replay:
         out = os.path.join(workdir, 'replay.json')
